@@ -145,11 +145,24 @@ class Inliner:
         r"option::Option::ok_or_else$": ("O", {"Some": ("wrapr", "Ok", ("a",)), "None": ("wrapr", "Err", ("call", []))}),
         r"option::Option::is_some_and$": ("O", {"Some": ("call", ["a"]), "None": ("false",)}),
         r"option::Option::filter$": None,
+        # three-argument forms: (receiver, default | default closure, closure);  "dflt" = the default operand, "call0" = the default closure
+        r"option::Option::map_or$": ("O", {"Some": ("call", ["a"]), "None": ("dflt",)}),
+        r"option::Option::map_or_else$": ("O", {"Some": ("call", ["a"]), "None": ("call0", [])}),
+        r"result::Result::map_or$": ("R", {"Ok": ("call", ["a"]), "Err": ("dflt",)}),
+        r"result::Result::map_or_else$": ("R", {"Ok": ("call", ["a"]), "Err": ("call0", ["a"])}),
         r"result::Result::map$": ("R", {"Ok": ("wrapr", "Ok", ("call", ["a"])), "Err": ("wrapr", "Err", ("a",))}),
         r"result::Result::map_err$": ("R", {"Ok": ("wrapr", "Ok", ("a",)), "Err": ("wrapr", "Err", ("call", ["a"]))}),
         r"result::Result::and_then$": ("R", {"Ok": ("call", ["a"]), "Err": ("wrapr", "Err", ("a",))}),
         r"result::Result::or_else$": ("R", {"Ok": ("wrapr", "Ok", ("a",)), "Err": ("call", ["a"])}),
         r"result::Result::unwrap_or_else$": ("R", {"Ok": ("a",), "Err": ("call", ["a"])}),
+    }
+
+    # conversions without a closure; spelled out only in a function that is being normalised anyway (this pass does not run on a
+    # function whose callees all exist in the baseline), so that `x.map_err(log).ok().map(f)` reads as the `match` it replaces
+    PLAIN = {
+        r"result::Result::ok$": ("R", {"Ok": ("mk", "std::option::Option", "Some", ("a",)), "Err": ("mk", "std::option::Option", "None", None)}),
+        r"result::Result::err$": ("R", {"Ok": ("mk", "std::option::Option", "None", None), "Err": ("mk", "std::option::Option", "Some", ("a",))}),
+        r"option::Option::ok_or$": ("O", {"Some": ("mk", "std::result::Result", "Ok", ("a",)), "None": ("mk", "std::result::Result", "Err", ("dflt",))}),
     }
 
     def _closure_key_of(self, o):
@@ -158,22 +171,24 @@ class Inliner:
         if p is None or len(p) != 1:
             return None
         defs = [st for b in self.rec["blocks"] if not b.get("cleanup") for st in b["stmts"] if st["lhs"] == p]
-        if len(defs) != 1 or defs[0]["rv"]["r"] != "agg" or defs[0]["rv"].get("adt") != "{closure}":
+        # (the continuation of an inlined call may have been cloned per outcome: copies of the one `{closure}` statement are fine)
+        if not defs or any(d["rv"]["r"] != "agg" or d["rv"].get("adt") != "{closure}" or d["rv"].get("closure") != defs[0]["rv"].get("closure") for d in defs):
             return None
         key = defs[0]["rv"].get("closure")
         key = self.fx._alias.get(norm(key), key)
         return key if key in self.new and key in self.fx._raw else None
 
-    def _desugar(self, i, spec, key):
+    def _desugar(self, i, spec, key, key0=None):
         rec = self.rec
         b = rec["blocks"][i]
         t = b["term"]
         kind, arms = spec
         recv, clos = t["args"][0], t["args"][-1]
         rp = _op_place(recv)
-        if rp is None or len(t["args"]) != 2:
+        if rp is None or len(t["args"]) not in (1, 2, 3):
             return False
-        crec = json.loads(self.fx._raw[key])
+        crec = json.loads(self.fx._raw[key]) if key is not None else None
+        crec0 = json.loads(self.fx._raw[key0]) if key0 is not None else None
         ln = t.get("ln", 0)
         meta = self.meta[i]
 
@@ -206,18 +221,26 @@ class Inliner:
                     l = new_local(adt)
                     stmts.append({"lhs": [l], "rv": {"r": "agg", "adt": adt, "var": w[1], "fields": [], "ops": []}, "ln": ln, "ex": None, "inl": "comb"})
                     return {"m": [l]}, None
-                if w[0] == "call":
+                if w[0] == "dflt":
+                    return t["args"][1], None
+                if w[0] in ("call", "call0"):
                     tup = new_local("(tuple)")
                     stmts.append({"lhs": [tup], "rv": {"r": "agg", "adt": "(tuple)", "ops": [payload] if w[1] else []}, "ln": ln, "ex": None, "inl": "comb"})
-                    r = new_local(crec.get("ret", "?"))
-                    return {"m": [r]}, (tup, r)
+                    r = new_local((crec if w[0] == "call" else crec0).get("ret", "?"))
+                    return {"m": [r]}, (tup, r, (key, clos) if w[0] == "call" else (key0, t["args"][1]))
                 if w[0] in ("wrap", "wrapr"):
                     inner, call = value(w[2], stmts)
                     return ("wrapped", w[1], inner), call
+                if w[0] == "mk":
+                    inner, call = value(w[3], stmts) if w[3] is not None else (None, None)
+                    return ("made", w[1], w[2], inner), call
                 return None, None
             val, call = value(what, stmts)
             tail = []
-            if isinstance(val, tuple):
+            if isinstance(val, tuple) and val[0] == "made":
+                tail.append({"lhs": t["dest"], "rv": {"r": "agg", "adt": val[1], "var": val[2], "fields": ["0"] if val[3] is not None else [], "ops": [val[3]] if val[3] is not None else []},
+                             "ln": ln, "ex": None, "inl": "comb"})
+            elif isinstance(val, tuple):
                 tail.append({"lhs": t["dest"], "rv": {"r": "agg", "adt": adt if what[0] == "wrap" else "std::result::Result", "var": val[1], "fields": ["0"], "ops": [val[2]]},
                              "ln": ln, "ex": None, "inl": "comb"})
             else:
@@ -228,6 +251,8 @@ class Inliner:
                 known = [vn]
             elif what[0] in ("wrap", "wrapr", "agg"):
                 known = [what[1]]
+            elif what[0] == "mk":
+                known = [what[2]]
             elif what[0] == "false":
                 known = ["false"]
             cont = t["t"]
@@ -236,13 +261,18 @@ class Inliner:
             if call is None:
                 bi = new_block(stmts + tail, {"k": "goto", "t": cont, "ln": ln, "ex": None})
             else:
-                tup, r = call
+                tup, r, (ckey, cop) = call
                 after = new_block(tail, {"k": "goto", "t": cont, "ln": ln, "ex": None})
-                bi = new_block(stmts, {"k": "call", "f": {"def": key, "res": key, "local": True, "res_local": True, "args": []},
-                                       "args": [clos, {"m": [tup]}], "dest": [r], "t": after, "fln": ln, "ln": ln, "ex": None})
+                bi = new_block(stmts, {"k": "call", "f": {"def": ckey, "res": ckey, "local": True, "res_local": True, "args": []},
+                                       "args": [cop, {"m": [tup]}], "dest": [r], "t": after, "fln": ln, "ln": ln, "ex": None})
             targets.append([int(idx), bi])
+        kn = b.get("known_recv")
+        if kn and kn[0] in vars_.values():
+            # the receiver's variant is known on this (specialised) path: the other arms are dead
+            dead = new_block([], {"k": "unreachable", "ln": ln, "ex": None})
+            targets = [[idx_, bi_ if vars_[str(idx_)] == kn[0] else dead] for idx_, bi_ in targets]
         b["stmts"].append({"lhs": [d], "rv": {"r": "discr", "p": rp, "adt": adt, "vars": vars_}, "ln": ln, "ex": None, "inl": "comb"})
-        b["term"] = {"k": "switch", "o": {"m": [d]}, "targets": targets[:-1] if False else targets, "otherwise": targets[-1][1], "ln": ln, "ex": t.get("ex"), "inl_comb": _callee_name(t)}
+        b["term"] = {"k": "switch", "o": {"m": [d]}, "targets": targets[:-1], "otherwise": targets[-1][1], "ln": ln, "ex": t.get("ex"), "inl_comb": _callee_name(t)}
         self.done.append("combinator:" + (_callee_name(t) or "?"))
         return True
 
@@ -255,14 +285,26 @@ class Inliner:
             if t["k"] == "call" and not b.get("cleanup") and t.get("t") is not None and len(rec["blocks"]) < MAX_BLOCKS:
                 name = _callee_name(t)
                 depth, stack = self.meta[i]
-                if name is not None and len(t["args"]) == 2:
+                if name is not None and len(t["args"]) in (1, 2):
+                    pspec = None
+                    for rx, sp in self.PLAIN.items():
+                        if re.search(rx, name):
+                            pspec = sp
+                    needs_dflt = pspec is not None and any(w[3] == ("dflt",) for w in pspec[1].values())
+                    if pspec is not None and needs_dflt == (len(t["args"]) == 2) and self._desugar(i, pspec, None, None):
+                        continue
+                if name is not None and len(t["args"]) in (2, 3):
                     spec = None
                     for rx, sp in self.COMB.items():
                         if sp is not None and re.search(rx, name):
                             spec = sp
-                    if spec is not None:
-                        ck = self._closure_key_of(t["args"][1])
-                        if ck is not None and self._desugar(i, spec, ck):
+                    uses0 = spec is not None and any(w[0] == "call0" for w in spec[1].values())
+                    three = spec is not None and any(w[0] in ("call0", "dflt") for w in spec[1].values())
+                    if spec is not None and three == (len(t["args"]) == 3):
+                        ck = self._closure_key_of(t["args"][-1])
+                        ck0 = self._closure_key_of(t["args"][1]) if uses0 else None
+                        # (every closure the spelled-out form calls must have a body to inline: a new closure, see _closure_key_of)
+                        if ck is not None and (not uses0 or ck0 is not None) and self._desugar(i, spec, ck, ck0):
                             continue
                 if name is not None:
                     key, crec = self._callee_rec(name)
@@ -616,6 +658,11 @@ class Inliner:
             if k == "call":
                 nm = _callee_name(t) or ""
                 d = t.get("dest") or []
+                # what is known about the receiver stays with the cloned call: a combinator spelled out later (`_desugar`) takes
+                # the matching arm only
+                a0 = _op_place(t["args"][0]) if t.get("args") else None
+                if a0 is not None and len(a0) == 1 and facts.get(a0[0]):
+                    nb["known_recv"] = list(facts[a0[0]])
                 if len(d) == 1:
                     facts.pop(d[0], None)
                     dconst.pop(d[0], None)
